@@ -135,12 +135,35 @@ SPEC = dict(
          "occurrences/total within 1e-6, Err iff total 0; min_score <= window <= max_score exactly for wildcard-free windows; "
          "invalid backgrounds / frequency matrices rejected). DIFF: bit-exact comparison with the extracted binary32 model "
          "(through the oracle table after the logarithm; the table is re-validated: log 0 = -inf, monotone, b^y = x within "
-         "1e-4). Non-trivial: distinct non-empty inputs per kind.",
+         "1e-4). kind=stat (15 %): CountMatrix::entropy / consensus, Correlation::{dot, norm, auto_correlation, "
+         "cross_correlation} on count, frequency, weight, scoring (also arbitrary cells) and discrete matrices, "
+         "WeightMatrix::information_content, ScoringMatrix::information_content, WeightMatrix::from(ScoringMatrix), on rows "
+         "built for the edge cases (all-zero, single symbol, two equal counts, all equal, wildcard-dominant, counts 2^24+1 ... "
+         "2^32-1 incl. u32 overflow of the row sum, periodic matrices), second matrix same / reversed / scaled / shorter / "
+         "unrelated, delays 0 ... beyond the rows, row pairs in and out of range, valid backgrounds incl. tiny non-zero "
+         "entries (1e-8 ... 2^-149); kind=bgcnt with totals up to and beyond 2^64 (usize overflow: panic in dev, wrap in "
+         "release, both modelled); corpus/C09/stat.txt: 8 fixed lines. PROPFAIL (extracted checkers, sound: "
+         "C09_check_consensus_row_sound, C09_stat_range_checkers_sound, C09_stat_row_checkers_sound, "
+         "C09_stat_value_checkers_sound): consensus symbol not a row maximum; cross_correlation not symmetric; correlation of "
+         "count / discrete / [0,1]-frequency matrices neither NaN nor in [-1,1] +- 1e-4; auto_correlation of a periodic "
+         "count matrix without zero row not 1 +- 1e-4; entropy NaN or outside [0, log2 K] +- 1e-4 (rows whose u32 sum does "
+         "not overflow), not 0 for one non-zero cell, not 1 for two equal counts; information content not sum "
+         "frequency*score (1e-3 relative); 2^score not the weight (1e-4 relative); background changed by "
+         "From<ScoringMatrix>. DIFF: every observation bit-exact against the extracted binary32 model (sqrt = Flocq Bsqrt; "
+         "log2 and 2^x through the oracle tables ELi/ELo, WLi/WLo, L2, P2, re-validated). The statement skeletons of the "
+         "functions modelled in PwmStat.v are regenerated from pwm/mod.rs on every run (translate/pwm_skel.py -> "
+         "GenPwmSkel.v) and compared with the pinned PwmSkel.v by C09_source_skeleton. Theorems: coq/pwm/C09.v (40) and "
+         "coq/pwm/C09Stat.v (26, four of them inside a Section). Non-trivial: distinct non-empty inputs per kind.",
     trusted_base=[
         "Coq 8.16.1 kernel (coqc); Flocq 4.1.0 (binary32 semantics); vm_compute only in Example lemmas and on closed "
         "powers of two; the binary32 theorems use the classical axioms of Coq's Reals (allow-listed)",
         "extraction: ExtrOcamlBasic only (nat, N, Z, positive, Q kept as extracted inductives); OCaml 4.13.1",
         "translator translate/pwm_complement.py (alphabet sizes, symbol order, default symbol from abc.rs)",
+        "translator translate/pwm_skel.py (token-level statement skeletons of matrix_traits! num_rows / dot, Correlation::{norm, "
+        "auto_correlation, cross_correlation}, CountMatrix::{new, row_entropy, entropy, consensus}, both information_content, "
+        "From<ScoringMatrix> for WeightMatrix and five literals of pwm/mod.rs -> coq/pwm/GenPwmSkel.v; fires on any token-level "
+        "edit of these bodies, also a semantically equal one; the pinned copy PwmSkel.v is re-pinned only together with a review "
+        "of PwmStat.v)",
         "hand-written OCaml driver ocaml/pwm/driver.ml (parsing, oracle table and its validation with OCaml's "
         "double-precision pow, tolerances, comparison)",
         "Rust harness harness/src/bin/pwm.rs (calls f32::log2/log10/ln on the observed weight cells to produce the "
@@ -148,6 +171,13 @@ SPEC = dict(
         "modelled, not verified: pwm/mod.rs and the Background/Pseudocounts parts of abc.rs (hand-written Gallina model "
         "tied by the bit-exact correspondence check); libm log2f/log10f/logf (oracle table); Iterator::sum::<f32>() "
         "starting from -0.0 (observed on rustc 1.95); the padding of a striped sequence being the wildcard (C04)",
+        "Flocq's Bsqrt mode_NE as the semantics of f32::sqrt (sqrtss, correctly rounded)",
+        "libm powf (2f32.powf) through an oracle table validated against OCaml's double-precision 2.0 ** x (1e-4), monotone, "
+        "2^-inf = 0",
+        "harness recomputes the inputs of the entropy / information-content logarithms (n as f32 / sum as f32 with the wrapped "
+        "u32 sum, x / b) to print the oracle pairs",
+        "cfg!(debug_assertions) of the harness build = overflow-checks of the library build (same cargo profile) selects the "
+        "panicking or wrapping integer sums of the model",
     ],
     assumptions=[
         "logarithms are Section variables flog2/flog10/fln; one_step_eq_two_step needs flog2 0.0 = -inf (re-validated on "
@@ -167,5 +197,16 @@ SPEC = dict(
         "(C09_window_between_min_max_f32, Flocq), exactly, for the bounds whose two values are not NaN",
         "fewer than 2^32 sequences and counts whose sum fits in usize (no integer overflow in from_sequences / from_counts)",
         "rows of every matrix have exactly K cells, symbol indices are < K (guaranteed by the Rust types)",
+        "the theorems of C09Stat.v about values (Cauchy-Schwarz, correlations in [-1,1], symmetric, = 1 on periodic matrices; "
+        "entropy in [0, log2 #non-zero cells]; information content = relative entropy >= 0; 2^x inverts log2) are about the "
+        "functions AS CODED interpreted over the real numbers (PwmReal.Rops: exact +,*,/; sqrt, ln x / ln 2, exp (x ln 2)) - the "
+        "distance of the binary32 results from these real values is not proved (checked on observations with 1e-4 / 1e-3 slack; "
+        "bit-exact tie to the binary32 model); correlation bounds assume no row with zero norm (the 0/0 = NaN cases are binary32 "
+        "theorems for count matrices: C09_correlation_zero_over_zero_is_nan); entropy theorems assume 0 < row sum < 2^32 (else "
+        "Panic 14 / wrapped sum); bit-for-bit symmetry of cross_correlation in binary32 is proved (C09_cross_correlation_symmetric_f32)",
+        "documented, not violations of C09 (notes/pwm.md R3-1..R3-5): WeightMatrix::information_content computes sum x*log2(x/b) "
+        "on the odds ratio (C09_weight_information_content_is_relative_entropy_refuted); u32 row sums of entropy/consensus; "
+        "CountMatrix::new never rejects (C09_count_new_accepts_everything); consensus keeps the LAST maximum incl. the wildcard "
+        "column; usize overflow of Background::from_counts - all modelled as coded",
     ],
 )
